@@ -329,6 +329,25 @@ func c13Prepare(r *vk.RNG, fields []refmodel.Field) []refmodel.Field {
 
 func c13Scenario(c *vk.Case, name string, fields []refmodel.Field) {
 	r := c.R
+	// half of the scenarios build the integration the way the service does: configuration JSON -> config.ValidateFix ->
+	// shovel.NewDestination (whatever validation does to the event declaration is part of what is judged)
+	viaConfig := r.Bool()
+	if !viaConfig && r.Chance(1, 3) {
+		// an ABI that leaves the indexed inputs nobody selects unnamed (legal Solidity; the configuration file's
+		// validation refuses two inputs of one name, an integration submitted through the dashboard is not checked
+		// for it): names take no part in the signature, and every indexed input still counts as a topic
+		fields = append([]refmodel.Field(nil), fields...)
+		n := 0
+		for i := range fields {
+			if fields[i].Indexed && fields[i].Column == "" {
+				fields[i].Name = ""
+				n++
+			}
+		}
+		if n >= 2 {
+			c.Obs("scenarios_with_several_unnamed_indexed_inputs", 1)
+		}
+	}
 	d := newABIDecl(name, fields)
 	nIdx := 0
 	for _, f := range fields {
@@ -341,9 +360,6 @@ func c13Scenario(c *vk.Case, name string, fields []refmodel.Field) {
 	if emptyData {
 		c.Obs("scenarios_all_indexed_empty_data", 1)
 	}
-	// half of the scenarios build the integration the way the service does: configuration JSON -> config.ValidateFix ->
-	// shovel.NewDestination (whatever validation does to the event declaration is part of what is judged)
-	viaConfig := r.Bool()
 	var (
 		ig  dig.Integration
 		err error
